@@ -12,6 +12,12 @@ def _h(s):
     return int(hashlib.sha1(s.encode("utf-8", "replace")).hexdigest()[:8], 16) & 0x3FFFFFFF
 
 
+def _h2(s):
+    """60-bit key as two 30-bit halves (TLC integers are 32-bit): call signatures must not collide"""
+    x = hashlib.sha1(s.encode("utf-8", "replace")).hexdigest()
+    return [int(x[:8], 16) & 0x3FFFFFFF, int(x[8:16], 16) & 0x3FFFFFFF]
+
+
 def canon(o, depth=0):
     """canonical text of the observable state of an object (deep)"""
     if depth > 6:
@@ -279,11 +285,17 @@ def _oc(ex):
 
 
 def call_event(entry, fn, args, kwargs, selfobj, G, cls_tag, variant=""):
+    return observe_call(entry, fn, args, kwargs, selfobj, G, cls_tag, variant)[0]
+
+
+def observe_call(entry, fn, args, kwargs, selfobj, G, cls_tag, variant=""):
+    """perform the call and describe it -> (event, result, exception)"""
     qn = entry[0]
-    watched = list(args) + ([selfobj] if selfobj is not None else [])
+    exc = res = None
+    watched = list(args) + [kwargs[k] for k in sorted(kwargs)] + ([selfobj] if selfobj is not None else [])
     pre = [digest(a) for a in watched]
     selfcanon = canon(selfobj) if selfobj is not None else ""
-    argcanon = ";".join(canon(a) for a in args)
+    argcanon = ";".join(canon(a) for a in args) + "".join(";%s=%s" % (k, canon(kwargs[k])) for k in sorted(kwargs))
     gpre = G.digest()
     try:
         res = fn(*args, **kwargs)
@@ -292,16 +304,17 @@ def call_event(entry, fn, args, kwargs, selfobj, G, cls_tag, variant=""):
             # a result that aliases an argument list would let the caller corrupt it later: not a value copy
             pass
     except Exception as ex:
+        exc = ex
         oc, rd, fin, shp = _oc(ex), 0, 1, "raise"
     post = [digest(a) for a in watched]
     gpost = G.digest()
     mut = 1 if qn in A.MUTATORS else 0
     if mut and selfobj is not None:
         pre[-1] = post[-1] = 0        # a documented mutator may change self (only self)
-    key = _h(qn + "|" + argcanon + "|" + selfcanon)
-    return {"k": "call", "f": qn, "site": qn, "cls": cls_tag, "variant": variant, "pre": pre, "post": post, "gpre": gpre, "gpost": gpost,
+    key = _h2(qn + "|" + argcanon + "|" + selfcanon)
+    return ({"k": "call", "f": qn, "site": qn, "cls": cls_tag, "variant": variant, "pre": pre, "post": post, "gpre": gpre, "gpost": gpost,
             "res": rd, "fin": fin, "shape": shp, "oc": oc, "key": key, "mut": mut, "clock": 1 if qn in A.CLOCK else 0,
-            "nargs": len(args)}
+            "nargs": len(args)}, res, exc)
 
 
 TABULAR = ("Coordinates.planetary_conjunction", "Coordinates.planet_star_conjunction", "Coordinates.planet_stars_in_line")
@@ -465,6 +478,35 @@ def gen_neighbours(seed, part, parts):
     for line in p.stdout.decode().splitlines():
         if line.strip():
             yield json.loads(line)
+
+
+def gen_testsuite(kind):
+    """the repository's own tests ("tests") or the docstring examples of every module ("doctests"), executed under
+    harness/pytest_tracer.py: one event per outermost public call, in execution order"""
+    import json, os, subprocess, sys, tempfile
+    import pymeeus
+    import core
+    root = os.path.dirname(os.path.dirname(os.path.abspath(pymeeus.__file__)))
+    os.makedirs(core.WORK, exist_ok=True)
+    fd, path = tempfile.mkstemp(prefix="testtrace_", suffix=".ndjson", dir=core.WORK)
+    os.close(fd)
+    try:
+        cmd = [sys.executable, "-B", "-m", "pytest", "-q", "-p", "no:cacheprovider", "-p", "pytest_tracer"]
+        cmd += ["tests"] if kind == "tests" else ["--doctest-modules", "pymeeus"]
+        p = subprocess.run(cmd, cwd=root, env=dict(os.environ, VERIF_TEST_TRACE=path), stdout=subprocess.PIPE,
+                           stderr=subprocess.STDOUT, timeout=3000)
+        out = p.stdout.decode("utf-8", "replace")
+        if " passed" not in out:
+            raise RuntimeError("pytest did not run: " + out[-1500:])
+        with open(path) as f:
+            for line in f:
+                if line.strip():
+                    yield json.loads(line)
+    finally:
+        try:
+            os.unlink(path)
+        except OSError:
+            pass
 
 
 def copy_events(seed):
